@@ -294,11 +294,20 @@ def check_bench(gate, nin):
     return dict(failed=False, observed='ok', expected='ok')
 
 
-def check_wide_vector(n=12, merge=True):
-    """bit-indexed vector ports wider than 10 bits (index order is numeric, not lexicographic)"""
+def check_wide_vector(n=12, merge=True, order='asc'):
+    """bit-indexed vector ports wider than 10 bits (index order is numeric, not lexicographic);
+    the bits may be declared in any order on the .inputs / .outputs lines"""
     import pyrtl
-    ins = ' '.join('a[%d]' % i for i in range(n))
-    outs = ' '.join('o[%d]' % i for i in range(n))
+    import random
+    idx_i, idx_o = list(range(n)), list(range(n))
+    if order == 'desc':
+        idx_i.reverse()
+        idx_o.reverse()
+    elif order == 'shuffled':
+        random.Random(n).shuffle(idx_i)
+        random.Random(n + 1).shuffle(idx_o)
+    ins = ' '.join('a[%d]' % i for i in idx_i)
+    outs = ' '.join('o[%d]' % i for i in idx_o)
     body = ''.join('.names a[%d] o[%d]\n1 1\n' % (i, (i + 1) % n) for i in range(n))
     blif = ".model top\n.inputs %s\n.outputs %s\n%s.end\n" % (ins, outs, body)
     try:
